@@ -228,11 +228,13 @@ for op, types in CMP_T.items():
     lets(["a", "b"], types)
     w('//@   let rv = tview("bool", retVal)')
     w("//@   requires [alias_r] retVal.Raw.arr != a.Raw.arr && retVal.Raw.arr != b.Raw.arr")
-    w('//@   requires [pos] gh("it_pos", ait) == 0 && gh("it_pos", bit) == 0 && gh("it_pos", rit) == 0 && ait.val != bit.val && ait.val != rit.val && bit.val != rit.val')
-    w("//@   requires [range_r] forall p :: 0 <= p && p < it_len(rit) ==> 0 <= it_seq(rit, p) && it_seq(rit, p) < len(rv)")
+    # an operand that holds a single element is read as a scalar and its iterator (possibly nil) is not used
     for T in types:
         av, bv = V("a", T), V("b", T)
-        w('//@   requires [range_%s] t == rtype("%s") ==> (forall p :: 0 <= p && p < it_len(ait) ==> 0 <= it_seq(ait, p) && it_seq(ait, p) < len(%s)) && (forall p :: 0 <= p && p < it_len(bit) ==> 0 <= it_seq(bit, p) && it_seq(bit, p) < len(%s)) && (len(%s) == 1 && len(%s) == 1 ==> len(rv) >= 1)' % (T, T, av, bv, av, bv))
+        w('//@   requires [pos_%s] t == rtype("%s") ==> (len(%s) != 1 ==> gh("it_pos", ait) == 0 && ait.val != rit.val) && (len(%s) != 1 ==> gh("it_pos", bit) == 0 && bit.val != rit.val) && (len(%s) != 1 || len(%s) != 1 ==> gh("it_pos", rit) == 0) && (len(%s) != 1 && len(%s) != 1 ==> ait.val != bit.val)' % (T, T, av, bv, av, bv, av, bv))
+    for T in types:
+        av, bv = V("a", T), V("b", T)
+        w('//@   requires [range_%s] t == rtype("%s") ==> (len(%s) != 1 ==> (forall p :: 0 <= p && p < it_len(ait) ==> 0 <= it_seq(ait, p) && it_seq(ait, p) < len(%s))) && (len(%s) != 1 ==> (forall p :: 0 <= p && p < it_len(bit) ==> 0 <= it_seq(bit, p) && it_seq(bit, p) < len(%s))) && (len(%s) == 1 && len(%s) == 1 ==> len(rv) >= 1) && (len(%s) != 1 || len(%s) != 1 ==> (forall p :: 0 <= p && p < it_len(rit) ==> 0 <= it_seq(rit, p) && it_seq(rit, p) < len(rv)))' % (T, T, av, av, bv, bv, av, bv, av, bv))
     for T in types:
         av, bv = V("a", T), V("b", T)
         both = "rv[0] == %s(old(%s[0]), old(%s[0]))" % (f, av, bv)
@@ -247,10 +249,12 @@ for op, types in CMP_T.items():
     header(op + "SameIter", "C11 C17")
     lets(["a", "b"], stypes)
     alias_req("a", "b")
-    w('//@   requires [pos] gh("it_pos", ait) == 0 && gh("it_pos", bit) == 0 && ait.val != bit.val')
     for T in stypes:
         av, bv = V("a", T), V("b", T)
-        w('//@   requires [range_%s] t == rtype("%s") ==> (forall p :: 0 <= p && p < it_len(ait) ==> 0 <= it_seq(ait, p) && it_seq(ait, p) < len(%s)) && (forall p :: 0 <= p && p < it_len(bit) ==> 0 <= it_seq(bit, p) && it_seq(bit, p) < len(%s))' % (T, T, av, bv))
+        w('//@   requires [pos_%s] t == rtype("%s") ==> (len(%s) != 1 ==> gh("it_pos", ait) == 0) && (len(%s) != 1 ==> gh("it_pos", bit) == 0) && (len(%s) != 1 && len(%s) != 1 ==> ait.val != bit.val)' % (T, T, av, bv, av, bv))
+    for T in stypes:
+        av, bv = V("a", T), V("b", T)
+        w('//@   requires [range_%s] t == rtype("%s") ==> (len(%s) != 1 ==> (forall p :: 0 <= p && p < it_len(ait) ==> 0 <= it_seq(ait, p) && it_seq(ait, p) < len(%s))) && (len(%s) != 1 ==> (forall p :: 0 <= p && p < it_len(bit) ==> 0 <= it_seq(bit, p) && it_seq(bit, p) < len(%s)))' % (T, T, av, av, bv, bv))
     for T in stypes:
         av, bv = V("a", T), V("b", T)
         both = "%s[0] == (%s(old(%s[0]), old(%s[0])) ? %s : %s)" % (av, f, av, bv, one(T), zero(T))
